@@ -342,7 +342,8 @@ class Check:
                 ctx = read_events(r["file"], max(1, idx - 40), idx - 1)
                 key = key_fn(ev_, ctx) if key_fn else "V:%s:%s" % (spec_module, json.dumps(ev_, sort_keys=True)[:400])
                 self.violation(key, "recorded event %d of %s is not a behaviour of %s" % (idx, os.path.basename(r["file"]), spec_module),
-                               {"mode": "V", "trace_spec": spec_module, "record_args": record_args, "trace_file": os.path.basename(r["file"]),
+                               {"mode": "V", "trace_spec": spec_module, "cfg": cfg, "record_args": record_args, "trace_file": os.path.basename(r["file"]),
+                                "shards": len(files),
                                 "event_index": idx, "rejected_event": ev_, "preceding_events": ctx})
         return rs
 
